@@ -13,14 +13,14 @@ Pipeline (TLC three ways, as in fam_xpath):
   3. PathEvalUtilGen enumerates path strings / filters / warnings / node references with the results PathEvalUtil
                      prescribes (and checks mechanism against meaning while doing so);  pe utils  compares xutils.
 """
-import json, os, re
+import json, os, re, concurrent.futures as cf
 from vlib import Infra, log, read_ndjson
 
 PROFILE = {
     # families of XPathSets (4 scalars+leaves, 11-13 paths, 14 path expressions, 15 operator chains, 17 mixed operands,
     # 18 keyed paths after comparisons, 19 unions, 20 path values), TLC-sampled deeper ASTs, token bound of the string enumeration
-    "quick": dict(fams=[4, 11, 14, 19], mc=[4, 11, 14, 19], rand=300, toks=4, use_every=3),
-    "thorough": dict(fams=[4, 11, 12, 13, 14, 15, 17, 18, 19, 20], mc=[4, 11, 12, 13, 14, 17, 18, 19, 20], rand=6000, toks=5, use_every=2),
+    "quick": dict(fams=[4, 11, 14, 19], mc=[4, 11, 14, 19], rand=300, toks=3, wf=2, use_every=3),
+    "thorough": dict(fams=[4, 11, 12, 13, 14, 15, 17, 18, 19, 20], mc=[4, 11, 12, 13, 14, 17, 18, 19, 20], rand=6000, toks=4, wf=3, use_every=2),
 }
 
 
@@ -34,6 +34,10 @@ def run(ctx):
     if os.environ.get("VERIF_FAMS"):
         fams = [int(x) for x in os.environ["VERIF_FAMS"].split(",")]
     ctx.build(["pe"])
+
+    # 3 (started first, runs beside 1 and 2): the xutils inputs
+    pool = cf.ThreadPoolExecutor(max_workers=1)
+    ufut = pool.submit(ctx.tlc, "PathEvalUtilGen", "PathEvalUtilGen.cfg", workers=6, timeout=1500, heap="8g", consts={"MaxToks": prof["toks"], "WfMax": prof["wf"]})
 
     # 1. exhaustive model
     ctx.tlc("PathEvalMC", "PathEvalMC.cfg", workers=12, timeout=1500, heap="10g", consts={"Fams": set_lit(prof["mc"])})
@@ -70,7 +74,7 @@ def run(ctx):
                     break
 
     # 3. xutils helpers
-    u = ctx.tlc("PathEvalUtilGen", "PathEvalUtilGen.cfg", workers=12, timeout=1500, heap="10g", consts={"MaxToks": prof["toks"]})
+    u = ufut.result()
     uvecs = sorted(os.path.join(u["dir"], f) for f in os.listdir(u["dir"]) if re.match(r"uvec_\w+_\d+\.ndjson$", f))
     if not uvecs:
         raise Infra("utility generator produced no vectors")
